@@ -85,6 +85,7 @@ class Tracer:
         self.version_syms = {}
         self.zone_new = []
         self.top_calls = []
+        self.visits = {}
         self.cursor_ref = None
         self.lineage = None  # length symbols of the input and of every rest split off it
         self.notes = []
@@ -137,11 +138,16 @@ class Tracer:
         if e == "enter":
             inst = kw["inst"]
             site = kw["site"]
-            if site and isinstance(site[0], tuple) and site[0] and site[0][0] == "R" and inst["name"] == self.hdr_name and self.cursor_ref is None:
-                a0 = kw["args"][0] if kw["args"] else None
-                if isinstance(a0, Ref) and a0.cell is not None:
-                    self.cursor_ref = (a0.cell, a0.path)
-            if site and isinstance(site[0], tuple) and site[0] and site[0][0] == "R" and self.cursor_ref is not None:
+            # the cursor variable: whatever `&mut` place holding a marked rest of the input was last handed to a callee
+            for a_ in kw["args"]:
+                if isinstance(a_, Ref) and a_.mut and a_.cell is not None:
+                    pv = I.read(kw["state"], a_.cell, a_.path, ("c08cp",))
+                    if isinstance(pv, Ref) and pv.cell is not None:
+                        q_ = I.read(kw["state"], pv.cell, pv.path, ("c08cq",))
+                        if isinstance(q_, Seq) and ("cursor",) in q_.prov and not any(t[0] == "read" for t in q_.prov):
+                            self.cursor_ref = (a_.cell, a_.path)
+            has_opt = any(isinstance(a_, Enum) and a_.path.endswith("option::Option") for a_ in kw["args"])
+            if self.cursor_ref is not None and has_opt:
                 S = kw["state"]
                 cur = I.read(S, self.cursor_ref[0], self.cursor_ref[1], ("c08cur",))
                 if isinstance(cur, Ref) and cur.cell is not None:
@@ -193,6 +199,7 @@ class Tracer:
             if not isinstance(src, Seq) or ("cursor",) not in src.prov:
                 return None  # not the file cursor (or a rest of it)
             tag = ("read", ctx.site)
+            self.visits[tag] = self.visits.get(tag, 0) + 1
             if tag not in self.reads:
                 cl = kw["count_lin"]
                 rb = self.root_block(ctx.site)
@@ -211,7 +218,7 @@ class Tracer:
                 # pin the version byte of header h
                 if len(tags) == 1:
                     r = self.reads.get(next(iter(tags)))
-                    if r is not None and r["in_header"] and r["count"] == ("lin", {"t": {}, "c": 1}):
+                    if r is not None and r["in_header"] and r["count"] in (("lin", {"t": {}, "c": 1}), ("const", 1)):
                         self.version_syms[r["hdr"]] = v.sym
                         want = self.box.get(r["hdr"])
                         if want is not None:
@@ -421,6 +428,10 @@ def evaluate(tr, box, fields, where):
     """Compare one traced run with the RFC table. Returns (findings, stats)."""
     out = []
     gs = groups_of(tr)
+    looped = sorted(tr.reads[t]["k"] for t, n in tr.visits.items() if n > 1 and t in tr.reads)
+    if looped:
+        # a read of the cursor sits in a loop: the sequence of reads is not a fixed list the table can be compared with
+        return out, {"inconclusive": "cursor reads #%s are executed in a loop; the layout rules compare a fixed sequence of reads with RFC 8536 and cannot decide this shape" % looped}
     v1 = box[1] == V1
     want = ["H", "B"] if v1 else ["H", "B", "H", "B"]
     stats = {"reads": len(tr.order), "groups": ["%s%s" % (g[0][0], len(g[1])) for g in gs]}
@@ -515,7 +526,7 @@ def evaluate(tr, box, fields, where):
             out.append(("DISPATCH", "%s|v1-no-zone" % where, "the version-1 path never reaches TimeZone::new"))
         dc = [c for c in tr.top_calls if c["reads_before"] == len(tr.order)]
         if not dc:
-            out.append(("DISPATCH", "%s|v1-no-decode-call" % where, "no call from the decoder root after the last read"))
+            out.append(("DISPATCH", "%s|v1-no-decode-call" % where, "no call taking an optional footer is made after the last read"))
         else:
             c = dc[0]
             if c["rest_iv"] != D.point(0):
@@ -592,12 +603,24 @@ def find_anchors(f):
     if len(roots) != 1:
         return None, None, None
     root = roots[0]
-    # header parser: the local callee with one argument (&mut cursor) called twice from the root
-    cnt = {}
-    for _, _, r in CFG(root).calls():
-        if r is not None and r.get("local") and "inst" in r:
-            cnt[r["inst"]] = cnt.get(r["inst"], 0) + 1
-    hdrs = [f.instances[i] for i, n in cnt.items() if n == 2 and f.instances[i]["body"]["arg_count"] == 1]
+    # header parser: a function reachable from the root that takes the cursor (&mut &[u8]) and returns, on
+    # success, a crate struct with at least six fields (the six counts), wherever it is called from
+    seen, work, hdrs = set(), [root], []
+    while work:
+        cur = work.pop()
+        if cur["id"] in seen:
+            continue
+        seen.add(cur["id"])
+        ins, o = ty_sig(f, cur)
+        if cur is not root and ins == ["&mut &[u8]"] and o.startswith("core::result::Result<"):
+            okty = o[len("core::result::Result<"):].split(",", 1)[0].strip()
+            adt = f.adt_by_path.get(okty)
+            if adt is not None and adt.get("kind", "struct") != "enum" and len(adt["variants"]) == 1 and len(adt["variants"][0]["fields"]) >= 6:
+                hdrs.append(cur)
+                continue
+        for _, _, r in CFG(cur).calls():
+            if r is not None and r.get("local") and "inst" in r and f.instances[r["inst"]].get("body") is not None and not f.instances[r["inst"]].get("closure"):
+                work.append(f.instances[r["inst"]])
     if len(hdrs) != 1:
         return root, None, None
     return root, hdrs[0], {i["id"] for i in find_parser(f)}
@@ -653,6 +676,11 @@ def check(run, tier):
         rules = ["DISPATCH", "HEADER", "BLOCKS", "FIELDS", "DOMAINS", "PAIRS", "EXT-FLAG"]
         for where, fnd, stats in outs:
             fired = {x[0] for x in fnd}
+            if "inconclusive" in stats:
+                print("INCONCLUSIVE property=C08 box=%s %s" % (where, stats["inconclusive"]))
+                run.extra.setdefault("inconclusive", []).append({"config": cfg, "box": where, "why": stats["inconclusive"]})
+                run.obligation(True, n=len(rules))  # counted, reported as inconclusive in the evidence, never as a finding
+                continue
             for r in rules:
                 run.obligation(r not in fired)
             for rule, key, msg in fnd:
